@@ -37,13 +37,20 @@ AfterLoop(pk, n, m) == IF Exh(pk, n, m.lastp1) \/ m.cn \/ m.st THEN "no" ELSE "m
 MInit(pk, n) == [ok |-> TRUE, stk |-> <<>>, lastp1 |-> 0, st |-> FALSE, code |-> 0, body |-> <<>>, cn |-> FALSE,
                  pend |-> IF pk[0] = "nil" THEN "no" ELSE "must", pan |-> FALSE, escaped |-> FALSE, why |-> "",
                  rh |-> FALSE,          \* rh: a custom ReturnHandler is mapped for this request (set by the trace spec)
+                 bef |-> 0,             \* number of Before handlers (Flame.Before) that have run, FIFO
                  head |-> FALSE]        \* head: a HEAD request - no body byte reaches the underlying writer (C13), so only the status is compared
 Bad(m, why) == [m EXCEPT !.ok = FALSE, !.why = why]
 HasRec(pk, stk) == \E i \in 1..Len(stk) : pk[stk[i].h] = "rec"
 MStep(pk, n, m, e) ==
   IF ~m.ok THEN m
   ELSE LET d == Len(m.stk) IN
-  CASE e.e = "enter" ->
+  CASE e.e = "before" ->
+         \* Flame.Before handlers run first, in registration order, before any routing; the first one that
+         \* returns true ends the request without starting the chain
+         IF ~m.pan /\ d = 0 /\ m.lastp1 = 0 /\ e.i = m.bef + 1 /\ m.pend \in {"must", "no"} /\ m.pend # "done"
+         THEN [m EXCEPT !.bef = e.i, !.pend = IF e.stop THEN "stopped" ELSE @]
+         ELSE Bad(m, "Before handler out of order or after the chain started")
+    [] e.e = "enter" ->
          \* C03: handlers start strictly in chain order, each at most once, never skipping one
          IF ~m.pan /\ e.h = m.lastp1 /\ m.pend \in {"must", "may"} /\ ~Exh(pk, n, m.lastp1)
          THEN [m EXCEPT !.stk = Append(@, [h |-> e.h, inNext |-> FALSE]), !.lastp1 = @ + 1, !.pend = "body"]
@@ -95,7 +102,7 @@ MStep(pk, n, m, e) ==
          IF m.pan /\ d = 0 /\ ~HasRec(pk, m.stk) THEN [m EXCEPT !.pan = FALSE, !.escaped = TRUE, !.pend = "no"]
          ELSE Bad(m, "panic escaped ServeHTTP although Recovery was installed before it")
     [] e.e = "end" ->
-         IF ~m.pan /\ d = 0 /\ (m.pend \in {"no", "may"}) /\ (m.escaped \/ (e.status = m.code /\ (IF m.head THEN e.body = <<>> ELSE e.body = m.body)))
+         IF ~m.pan /\ d = 0 /\ (m.pend \in {"no", "may"} \/ (m.pend = "stopped" /\ m.lastp1 = 0)) /\ (m.escaped \/ (e.status = m.code /\ (IF m.head THEN e.body = <<>> ELSE e.body = m.body)))
          THEN [m EXCEPT !.pend = "done"]
          ELSE Bad(m, "request ended early, with open handlers, or with a status/body the events do not explain")
 
